@@ -4,6 +4,7 @@ ES: every sequence of <= d set_cells batches (stateless: each history is replaye
 queried after every step, compared with a from-scratch translation of the edited workbook (memoised per model state).
 EE: the depth-2 exploration is repeated in separate processes for a range of PYTHONHASHSEED values.
 """
+import datetime
 import itertools
 import json
 import os
@@ -11,6 +12,8 @@ import subprocess
 import sys
 
 from mc import driver as D
+
+DT = datetime.datetime
 
 PROP = 'C04'
 RULE = ('explicit-state exploration of the real Executor: ALL sequences of d set_cells batches (d=3 quick, 4 thorough) over '
@@ -54,6 +57,8 @@ def _ops():
     ops.append([('const', 0, 'a1')])
     ops.append([('const', True, 'num')])
     ops.append([('const', False, 'a1')])
+    # a date-time with a time of day (and a plain number afterwards in other histories): the value is kept as supplied
+    ops.append([('const', DT(2024, 3, 5, 14, 30), 'a1')])
     ops.append([('formula', 0, 'num')])
     ops.append([('failing', 0, 'a1')])
     ops.append([('blank', 0, 'num')])
